@@ -61,6 +61,8 @@ type JobResult struct {
 	Samples      []map[string]interface{} `json:"samples"`
 	Labels       map[string]int           `json:"assert_labels"`
 	SolverErrors []string                 `json:"solver_errors"`
+	Fallbacks    int                      `json:"cvc5_fallback_queries"`
+	FallbackS    float64                  `json:"cvc5_fallback_time_s"`
 	Steps        int64                    `json:"ssa_steps"`
 	Error        string                   `json:"error,omitempty"`
 }
@@ -294,6 +296,8 @@ func runJob(prog *ssa.Program, job Job, trace bool, logDir string) (res *JobResu
 	res.Samples = ex.Samples
 	res.Labels = ex.assertLabels
 	res.SolverErrors = sol.Errors
+	res.Fallbacks = sol.Fallbacks
+	res.FallbackS = sol.FallbackT.Seconds()
 	res.Steps = ex.TotalSteps
 	return
 }
